@@ -162,6 +162,34 @@ func runC15(rec *vkit.Recorder, c *c15Case) []vkit.Violation {
 				j.Params["edited"] = []string{"1"}
 				return true
 			}},
+			{"param-later-value", func(j *jobSpec, gs []grpSpec) bool {
+				// change (or add) a value after the first one of a configured param
+				if j.Params == nil {
+					j.Params = map[string][]string{}
+				}
+				for k, v := range j.Params {
+					if len(v) >= 2 {
+						j.Params[k] = append(append([]string{}, v[:len(v)-1]...), v[len(v)-1]+"-edited")
+						return true
+					}
+				}
+				for k, v := range j.Params {
+					j.Params[k] = append(append([]string{}, v...), "second-value")
+					return true
+				}
+				j.Params["match[]"] = []string{"a", "b"}
+				return true
+			}},
+			{"param-empty-value", func(j *jobSpec, gs []grpSpec) bool {
+				if j.Params == nil {
+					j.Params = map[string][]string{}
+				}
+				if _, ok := j.Params["debug"]; ok {
+					return false
+				}
+				j.Params["debug"] = []string{""}
+				return true
+			}},
 			{"label-value", func(j *jobSpec, gs []grpSpec) bool {
 				for i := range gs {
 					if gs[i].Labels == nil {
@@ -232,8 +260,13 @@ func genC15(t *rapid.T) *c15Case {
 	c := &c15Case{Job: jobSpec{Name: "node"}}
 	c.Job.Scheme = rapid.SampledFrom([]string{"", "http", "https"}).Draw(t, "scheme")
 	c.Job.Path = rapid.SampledFrom([]string{"", "/metrics", "/m/x"}).Draw(t, "path")
-	if rapid.Bool().Draw(t, "params") {
+	switch rapid.IntRange(0, 3).Draw(t, "params") {
+	case 1:
 		c.Job.Params = map[string][]string{"module": {"http_2xx"}}
+	case 2:
+		c.Job.Params = map[string][]string{"match[]": {"{job=\"a\"}", "{job=\"b\"}"}, "module": {"m"}}
+	case 3:
+		c.Job.Params = map[string][]string{"debug": {""}, "x": {"1", "2", "3"}}
 	}
 	if rapid.IntRange(0, 2).Draw(t, "rules") == 0 {
 		c.Job.Rules = []relRule{{Action: "labelmap", Regex: "__meta_kubernetes_pod_label_(.+)"}}
